@@ -35,7 +35,7 @@ EXPLANATION = (
 NOT_DECIDED = [
     "byte equality of the columns after the round trip (h5py/HDF5 filters)",
     "value-dependent pairs: ','.join/split(',') is not inverse for an empty "
-    "step list; str(range_x) is parsed back only for plain Python numbers",
+    "step list",
 ]
 
 INVERSE = {
@@ -92,6 +92,21 @@ def _key_test(test, key, var="key"):
     return None
 
 
+def _beta(v):
+    """`(lambda x: E)(a)` -> E[x := a] (one positional parameter)"""
+    if isinstance(v, ast.Call) and isinstance(v.func, ast.Lambda) and len(
+            v.func.args.args) == 1 and len(v.args) == 1 and not v.keywords:
+        from ..astutil import clone
+        par = v.func.args.args[0].arg
+        body = clone(v.func.body)
+
+        class _S(ast.NodeTransformer):
+            def visit_Name(self, n):
+                return clone(v.args[0]) if n.id == par else n
+        return ast.fix_missing_locations(_S().visit(body))
+    return v
+
+
 def _chain(ifnode):
     out = []
     cur = ifnode
@@ -118,8 +133,8 @@ def _kind_of_value(body, valvar, writer, key=None, var="key"):
                         v.func.value, ast.Name) and v.func.value.id in \
                         _DISPATCH and norm(v.func.slice) == var and \
                         key in _DISPATCH[v.func.value.id]:
-                    v = ast.Call(func=_DISPATCH[v.func.value.id][key],
-                                 args=v.args, keywords=v.keywords)
+                    v = _beta(ast.Call(func=_DISPATCH[v.func.value.id][key],
+                                       args=v.args, keywords=v.keywords))
                 t = norm(v)
                 # formatting with a precision / general format keeps only
                 # part of the digits
@@ -137,6 +152,15 @@ def _kind_of_value(body, valvar, writer, key=None, var="key"):
                     specs.append(v.left.value)
                 if specs:
                     return f"formatted with {specs[0]!r} (digits are lost)"
+                if writer and (isinstance(v, ast.JoinedStr) or (
+                        isinstance(v, ast.Call) and isinstance(
+                            v.func, ast.Attribute) and v.func.attr == "format"
+                        and isinstance(v.func.value, ast.Constant)) or (
+                        isinstance(v, ast.BinOp) and isinstance(
+                            v.op, ast.Mod) and isinstance(
+                            v.left, ast.Constant))):
+                    # the values' own text, as str() of the sequence gives
+                    return "str"
                 if isinstance(v, ast.Call):
                     cn = call_name(v) or ""
                     if not cn and isinstance(v.func, ast.Attribute):
@@ -1003,6 +1027,203 @@ def r7_whole_file_hash(ctx):
                   "whole file")
 
 
+def _plain_numbers(e, body, depth=0):
+    """`e` evaluates to a sequence of plain Python numbers whatever the
+    caller stored: every element passes through float()/int(), or the
+    sequence comes from ndarray.tolist()"""
+    if depth > 4 or e is None:
+        return False
+    conv = ("float", "int")
+    if isinstance(e, (ast.Tuple, ast.List)):
+        return bool(e.elts) and all(
+            isinstance(x, ast.Call) and call_name(x) in conv for x in e.elts)
+    if isinstance(e, (ast.ListComp, ast.GeneratorExp)):
+        return isinstance(e.elt, ast.Call) and call_name(e.elt) in conv
+    if isinstance(e, ast.Call):
+        cn = call_name(e) or ""
+        if cn in ("tuple", "list") and len(e.args) == 1:
+            return _plain_numbers(e.args[0], body, depth + 1)
+        if cn == "map" and len(e.args) == 2 and norm(e.args[0]) in conv:
+            return True
+        if isinstance(e.func, ast.Attribute) and e.func.attr == "tolist" \
+                and not e.args:
+            return True
+    if isinstance(e, ast.Name):
+        defs = [n for st in body for n in ast.walk(st)
+                if isinstance(n, ast.Assign) and norm(n.targets[0]) == e.id
+                and n.value is not e]
+        return len(defs) == 1 and _plain_numbers(defs[0].value, body,
+                                                 depth + 1)
+    return False
+
+
+_NUMSPEC = re.compile(r"[eEfFgGdn%]$")
+
+
+def _formatted_numbers(v):
+    """text built by formatting: True when every interpolated value is
+    formatted as a number (numeric format spec) or converted with float()/
+    int() first; False when a value is inserted with its own str()/repr();
+    None when `v` is not such an expression"""
+    conv = ("float", "int")
+
+    def is_conv(x):
+        return isinstance(x, ast.Call) and call_name(x) in conv
+    if isinstance(v, ast.JoinedStr):
+        vals = [x for x in v.values if isinstance(x, ast.FormattedValue)]
+        if not vals:
+            return None
+        return all(is_conv(x.value) or (
+            x.format_spec is not None and len(x.format_spec.values) == 1
+            and isinstance(x.format_spec.values[0], ast.Constant)
+            and _NUMSPEC.search(str(x.format_spec.values[0].value))
+            and x.conversion == -1) for x in vals)
+    if isinstance(v, ast.Call) and isinstance(v.func, ast.Attribute) and \
+            v.func.attr == "format" and isinstance(
+                v.func.value, ast.Constant) and isinstance(
+                v.func.value.value, str):
+        fields = re.findall(r"\{([^{}]*)\}", v.func.value.value)
+        if not fields:
+            return None
+        if all(":" in f and _NUMSPEC.search(f.split(":", 1)[1])
+               and "!" not in f for f in fields):
+            return True
+        return bool(v.args) and not v.keywords and all(
+            is_conv(x) for x in v.args)
+    if isinstance(v, ast.BinOp) and isinstance(v.op, ast.Mod) and isinstance(
+            v.left, ast.Constant) and isinstance(v.left.value, str):
+        specs = re.findall(r"%[-+ #0-9.]*([a-zA-Z])", v.left.value)
+        if not specs:
+            return None
+        if all(c in "eEfFgGdi" for c in specs):
+            return True
+        args = v.right.elts if isinstance(v.right, ast.Tuple) else [v.right]
+        return all(is_conv(x) for x in args)
+    return None
+
+
+def r8_textual_numbers(ctx):
+    """A setting that is stored as the text of a Python sequence and parsed
+    back with float() round-trips only when the text holds plain numbers:
+    str() of a numpy scalar is 'np.float64(...)' (numpy >= 2), which float()
+    rejects - the container, with every rating already in it, becomes
+    unreadable.  The writer has to convert the elements itself (the settings
+    keep whatever the caller passed to fit_model)."""
+    W = Writer(ctx.repo)
+    io = W.mod
+    _load_dispatch(io)
+    ctx.analysed(W.fn)
+    wloop = None
+    for n in walk_no_nested(W.fn, False):
+        if isinstance(n, ast.For) and "fit_properties" in norm(n.iter):
+            wloop = n
+    if wloop is None:
+        raise Undecided("cannot find the fit-properties loop of the writer")
+    wchain = None
+    for s in wloop.body:
+        if isinstance(s, ast.If):
+            wchain = _chain(s)
+    if wchain is None:
+        raise Undecided("encoding branches not found")
+    wkey = norm(wloop.target) if isinstance(wloop.target, ast.Name) else "key"
+    keys = list(facts.fp_default(ctx.repo)) + list(facts.fp_results(ctx.repo))
+    # does the settings store itself convert the value?
+    fitm = ctx.repo.mod("fit")
+    setter = fitm.funcs.get("FitProperties.__setitem__")
+    n = 0
+    for key in keys:
+        taken = None
+        for test, body in wchain:
+            v = True if test is None else _key_test(test, key, wkey)
+            if v is None:
+                raise Undecided(f"cannot evaluate branch test {norm(test)} "
+                                f"for key {key}")
+            if v:
+                taken = body
+                break
+        if taken is None:
+            continue
+        for st in taken:
+            for a in ast.walk(st):
+                if not (isinstance(a, ast.Assign) and isinstance(
+                        a.value, (ast.Call, ast.JoinedStr, ast.BinOp))):
+                    continue
+                v = a.value
+                if isinstance(v, ast.Call) and isinstance(
+                        v.func, ast.Subscript) and isinstance(
+                        v.func.value, ast.Name) and v.func.value.id in \
+                        _DISPATCH and key in _DISPATCH[v.func.value.id]:
+                    v = _beta(ast.Call(func=_DISPATCH[v.func.value.id][key],
+                                       args=v.args, keywords=v.keywords))
+                ok = None
+                if isinstance(v, ast.Call) and call_name(v) in (
+                        "str", "repr") and len(v.args) == 1:
+                    ok = _plain_numbers(v.args[0], taken)
+                else:
+                    ok = _formatted_numbers(v)
+                if ok is None:
+                    continue
+                n += 1
+                if not ok and setter is not None:
+                    for s2 in walk_no_nested(setter, False):
+                        if isinstance(s2, ast.Assign) and norm(
+                                s2.targets[0]) == "value" and \
+                                _plain_numbers(s2.value, [s2]) and any(
+                                    c.pol and f"'{key}'" in c.text
+                                    for c in conditions_at(s2)):
+                            ok = True
+                ctx.check(ok, a, f"'{key}' is written as the text of plain "
+                          "Python numbers",
+                          f"rate/io.py:save_hdf5 writes the setting '{key}' "
+                          f"as `{norm(a.value)}` of whatever the caller "
+                          "passed to fit_model: with numpy scalars (e.g. "
+                          f"{key}=(tip.min(), 0)) the attribute reads "
+                          "'(np.float64(-1e-06), 0)', load_hdf5 raises "
+                          "ValueError in float() and the container - "
+                          "including all ratings stored before - cannot be "
+                          "loaded any more")
+    ctx.floor("settings stored as the text of a sequence", n, 1)
+
+
+def r9_every_rating_is_saved(ctx):
+    """The rating dialog stores what was entered: the only reason not to
+    save is an empty field.  A test on the converted number (truthiness,
+    > 0) drops legitimate values - 0 is a rating."""
+    from ..symres import Resolver as _Res
+    rm = ctx.repo.mod("cli.rating")
+    fn = rm.funcs.get("RatingGUI.save")
+    if fn is None:
+        raise AnchorError("RatingGUI.save not found")
+    ctx.analysed(fn)
+    calls = [c for c in calls_in(fn)
+             if (call_name(c) or "").endswith("save_hdf5")]
+    ctx.floor("save_hdf5 calls of the rating dialog", len(calls), 1)
+    R = _Res(fn)
+    for c in calls:
+        bad = None
+        for a in conditions_at(c):
+            e = R.resolve(a.node)
+            numeric = any(isinstance(x, ast.Call) and call_name(x) in (
+                "int", "float", "round") for x in ast.walk(e))
+            none_test = isinstance(e, ast.Compare) and isinstance(
+                e.ops[0], (ast.Is, ast.IsNot))
+            if numeric and not none_test:
+                bad = a
+        ctx.check(bad is None, c, "the dialog saves every entered rating",
+                  f"RatingGUI.save stores the rating only when "
+                  f"`{bad!r}` holds - a test on the converted number "
+                  f"(`{R.text(bad.node)[:60] if bad else ''}`): a rating "
+                  "of 0 is never written, and re-rating a stored curve "
+                  "with 0 silently keeps the old user fields")
+        ur = kwarg(c, "user_rate")
+        if ur is not None:
+            t = R.text(ur)
+            ctx.check("self.rating.get()" in t, c,
+                      f"user_rate <- {t[:50]}",
+                      f"the stored rating is `{t[:60]}`, not the value of "
+                      "the rating field")
+
+
 RULES = [
     ("C16-R1", "writer and reader tables agree (datasets, attributes, "
      "inverse encodings)", r1_tables_agree),
@@ -1017,4 +1238,8 @@ RULES = [
      "are unique per stored file", r6_extracted_names),
     ("C16-R7", "the file hash that keys the entries covers the whole file",
      r7_whole_file_hash),
+    ("C16-R8", "settings stored as text are written as plain Python numbers "
+     "(the reader parses them with float())", r8_textual_numbers),
+    ("C16-R9", "the rating dialog stores every entered rating (0 included)",
+     r9_every_rating_is_saved),
 ]
